@@ -623,8 +623,7 @@ def alphabet(ctx: Ctx, rule="R-C07-ALPHABET") -> None:
     ctx.check(qt == {"q:{}:{}:dead", "q:{}:{}:d", "q:{}:{}:n"}, rule, qnc, "qnc = q:<queue>:<priority>:<n|d|dead>", "4 parts", f"qnc builds {sorted(qt)}", instance="qnc shape")
     expect = {"full_message_name_from_short": 4, "parse_short_message_name": 2, "parse_message_name": 5}
     for fname, nparts in expect.items():
-        fn = u.functions.get(fname)
-        ctx.require(fn is not None, f"repid.connections.redis.utils.{fname} not found")
+        fn = ctx.func(f"repid.connections.redis.utils.{fname}")
         sp = [n for n in ast.walk(fn.node) if isinstance(n, ast.Assign) and isinstance(n.value, ast.Call) and isinstance(n.value.func, ast.Attribute) and n.value.func.attr == "split"
               and n.value.args and C.is_const(n.value.args[0], ":")]
         ok = len(sp) == 1 and isinstance(sp[0].targets[0], ast.Tuple) and len(sp[0].targets[0].elts) == nparts and len(sp[0].value.args) == 1
